@@ -142,6 +142,8 @@ func RuleTN1(c *Ctx) {
 		id, ok := ast.Unparen(e).(*ast.Ident)
 		return ok && info.ObjectOf(id) == param && env[param] == st0
 	}
+	helperDepth := 0
+	var runHelper func(gd *ast.FuncDecl, in *tnState) (*tnState, string)
 	var eval func(e ast.Expr) (*tnState, string)
 	eval = func(e ast.Expr) (*tnState, string) {
 		e = ast.Unparen(e)
@@ -210,6 +212,15 @@ func RuleTN1(c *Ctx) {
 				out.mapBytes(bytewise(asciiOnly(strings.ToUpper)))
 				out.approx = "strings.ToUpper is modelled on ASCII bytes only"
 			default:
+				// a helper of the repository that takes the string and hands the transformed
+				// string back: its body is interpreted with its parameter bound to the value
+				if gd := c.P.Decl(g); gd != nil && len(x.Args) == 1 && helperDepth < 3 {
+					if hv, hwhy := runHelper(gd, in); hv != nil {
+						return hv, ""
+					} else if hwhy != "" {
+						return nil, hwhy
+					}
+				}
 				return nil, "unrecognised step " + types.ExprString(x) + ": it is not one of the byte-wise steps whose composition this rule can decide (a decoder such as PathUnescape, a trim, a case fold on non-ASCII text are not)"
 			}
 			return out, ""
@@ -229,8 +240,75 @@ func RuleTN1(c *Ctx) {
 		}
 		return nil, "unrecognised expression " + types.ExprString(e)
 	}
-	for _, stmt := range nfd.Body.List {
+	runHelper = func(gd *ast.FuncDecl, in *tnState) (*tnState, string) {
+		if c.P.PkgOfDecl(gd) != pk || gd.Recv != nil || gd.Type.Params == nil || len(gd.Type.Params.List) != 1 || len(gd.Type.Params.List[0].Names) != 1 {
+			return nil, ""
+		}
+		hp := info.ObjectOf(gd.Type.Params.List[0].Names[0])
+		saved := env
+		env = map[types.Object]*tnState{hp: in}
+		helperDepth++
+		defer func() { env = saved; helperDepth-- }()
+		for i, stmt := range gd.Body.List {
+			switch hs := stmt.(type) {
+			case *ast.AssignStmt:
+				if len(hs.Lhs) != 1 || len(hs.Rhs) != 1 || (hs.Tok != token.ASSIGN && hs.Tok != token.DEFINE) {
+					return nil, "unrecognised statement in the helper " + gd.Name.Name
+				}
+				id, ok := ast.Unparen(hs.Lhs[0]).(*ast.Ident)
+				if !ok {
+					return nil, "unrecognised assignment target in the helper " + gd.Name.Name
+				}
+				v, why := eval(hs.Rhs[0])
+				if v == nil {
+					return nil, why
+				}
+				env[info.ObjectOf(id)] = v
+			case *ast.ReturnStmt:
+				if len(hs.Results) != 1 || i != len(gd.Body.List)-1 {
+					return nil, "unrecognised return in the helper " + gd.Name.Name
+				}
+				return eval(hs.Results[0])
+			default:
+				return nil, "unrecognised statement in the helper " + gd.Name.Name
+			}
+		}
+		return nil, "the helper " + gd.Name.Name + " has no final return"
+	}
+	for si, stmt := range nfd.Body.List {
 		pos := c.P.Pos(stmt.Pos())
+		// the inverted special case: `if x != "lit" { return <general> }; return "const"`
+		if ifs, isIf := stmt.(*ast.IfStmt); isIf && st == nil && si == len(nfd.Body.List)-2 && ifs.Else == nil && ifs.Init == nil && len(ifs.Body.List) == 1 {
+			if be, ok := ast.Unparen(ifs.Cond).(*ast.BinaryExpr); ok && be.Op == token.NEQ {
+				lit, okLit := "", false
+				if isRawParam(be.X) {
+					lit, okLit = constStr(be.Y)
+				} else if isRawParam(be.Y) {
+					lit, okLit = constStr(be.X)
+				}
+				gen, isRet := ifs.Body.List[0].(*ast.ReturnStmt)
+				last, isLast := nfd.Body.List[si+1].(*ast.ReturnStmt)
+				if okLit && isRet && isLast && len(gen.Results) == 1 && len(last.Results) == 1 {
+					if out, okOut := constStr(last.Results[0]); okOut {
+						e := ast.Unparen(gen.Results[0])
+						if conv, ok := e.(*ast.CallExpr); ok && len(conv.Args) == 1 {
+							if tv, isT := info.Types[conv.Fun]; isT && tv.IsType() {
+								e = ast.Unparen(conv.Args[0])
+							}
+						}
+						v, why := eval(e)
+						if v == nil {
+							sc.Undecided("pipeline", pos, why+" - injectivity of the automatic tag name is not established")
+							return
+						}
+						special[lit] = out
+						specialOrder = append(specialOrder, lit)
+						st = v
+						break
+					}
+				}
+			}
+		}
 		if st != nil {
 			sc.Undecided("pipeline", pos, "statement after the return")
 			return
